@@ -118,7 +118,10 @@ LawOrderFree(G) == /\ OutcomeRec(Reversed(G)) = OutcomeRec(G)
       occ   : names of the form head_{index} occurring in the expressions: [key |-> name, h |-> head, i |-> index]
               with the index a sequence of characters.
    "students can include a_{0}, a_{5}, a_{-2}, etc, using any integer.  All entries for a numbered variable will
-    use the sampling set specified by the base name. ... the specific variable has precedence."             *)
+    use the sampling set specified by the base name. ... the specific variable has precedence."
+   A head may itself be given a dependent sampling set: every instance is then a dependent with that formula.
+   Sibling variables (ordered ListGrader) need no construct of their own: sibling_j is a dependent symbol whose
+   formula is the j-th student input, declared after the author's variables.                                *)
 Digit == {"0", "1", "2", "3", "4", "5", "6", "7", "8", "9"}
 Body(i) == IF i # <<>> /\ i[1] = "-" THEN Tail(i) ELSE i
 IsDecimal(i) == Body(i) # <<>> /\ \A j \in DOMAIN Body(i) : Body(i)[j] \in Digit
